@@ -589,6 +589,8 @@ pub struct StreamDriver<'g> {
     pub term: Option<Term>,
     pub polls: usize,
     pub idle_points: usize,
+    /// Polls issued after the stream returned `None`.
+    pub post_end_polls: usize,
 }
 
 impl<'g> StreamDriver<'g> {
@@ -623,6 +625,7 @@ impl<'g> StreamDriver<'g> {
             term: None,
             polls: 0,
             idle_points: 0,
+            post_end_polls: 0,
         }
     }
 
@@ -724,6 +727,45 @@ impl<'g> StreamDriver<'g> {
                 self.term = Some(Term::Stalled);
             } else {
                 self.term = Some(Term::Returned);
+            }
+            // A consumer that is not fused polls once more after `None` (a select loop, one
+            // `next().await` too many). The Stream contract leaves the result open (None, Pending
+            // or even a panic), but a *function* handed out by such a poll is a function handed
+            // out twice by one streaming call (C03): it is logged as an ordinary yield and the
+            // exactly-once oracle sees it. None / Pending / panic are not logged.
+            if self.ended && self.term == Some(Term::Returned) {
+                let extra = if self.spurious_left > 0 { 2 } else { 1 };
+                for _ in 0..extra {
+                    let Some(s) = self.stream.as_mut() else { break };
+                    let mut cx = Context::from_waker(&self.waker);
+                    let r = catch_unwind(AssertUnwindSafe(|| s.as_mut().poll_next(&mut cx)));
+                    self.post_end_polls += 1;
+                    match r {
+                        Ok(Poll::Ready(Some(item))) => {
+                            let mut st = self.sh.borrow_mut();
+                            st.log.push(Ev::Poll);
+                            match item {
+                                SItem::Plain(r) | SItem::IntrSome(r) => {
+                                    let f = r.idx as u32;
+                                    st.log.push(Ev::Yield(f));
+                                    drop(st);
+                                    let _ = catch_unwind(AssertUnwindSafe(move || drop(r)));
+                                    self.sh.borrow_mut().log.push(Ev::RefDrop(f, self.flag.get()));
+                                }
+                                SItem::IntrNone => {}
+                            }
+                        }
+                        Ok(_) => {}
+                        Err(_) => {
+                            // polling after the end may panic under the Stream contract; the
+                            // stream is leaked rather than dropped in a possibly broken state
+                            if let Some(s) = self.stream.take() {
+                                std::mem::forget(s);
+                            }
+                            break;
+                        }
+                    }
+                }
             }
             // dropping an ended stream must be harmless too
             if let Some(s) = self.stream.take() {
